@@ -2,6 +2,7 @@ import XPathV.Lemmas.Facts
 import XPathV.Generated.ExtraFacts
 import XPathV.Lemmas.C09Base
 import XPathV.Lemmas.StringFns
+import XPathV.Lemmas.StringFns2
 /-!
 # C09 — string functions compute the XPath result on their arguments (property-level theorems)
 
@@ -165,5 +166,61 @@ theorem string_function_arities :
 (`xpathRound` itself is `xpathRoundM`, compared with the code by the substring sweep) -/
 theorem substring_bounds_source_ok : Generated.substringBoundsSrc =
     ["first:=xpathRound(start)", "last:=math.Inf(1)", "last=first+xpathRound(length)", "first=1", "last=float64(len(m)+1)"] := rfl
+
+end XPathV.Theorems.C09
+
+/-! ## nested string functions whose leaves are string literals **and flat filtered paths**
+(`Lemmas/StringFns2`) -/
+namespace XPathV.Theorems.C09
+open XPathV XPathV.Model XPathV.StringFns XPathV.StringFns2 XPathV.PathSem NumAlg
+
+variable {F : Type} [NumAlg F]
+
+/-- **C09, nested to any depth, with node-set arguments, through the builder**: every expression of
+`StrE2` — `StrE` with, wherever a string-valued argument is allowed (and in `string(P)`), a flat path
+`P` over child/attribute/self steps carrying predicates of the C02 fragment (`ArithSem2.FlatF2`) —
+evaluates, via the plan the builder makes, to the string the oracle gives: the engine reads a
+node-set argument as the string-value of the FIRST node of the list it computed, the oracle as the
+string-value of the first node in document order, and the two lists are the same list
+(`ArithSem2.flat2_same_list`).  `normalize-space(a)` is in the fragment when the string the oracle
+reads `a` as is one on which Go's and XML's whitespace coincide (`NormDom`).  Hypotheses of C02 for
+the paths: well-formed document, valid context node, navigator exposing namespace URIs, `HashInj`;
+builder at `smartDescThroughFilter = false`. -/
+theorem C09_nested_with_paths {d : Doc} (wf : WF d) (cfg : ECfg) (hns : cfg.nsIface = true)
+    (hinj : HashInj d cfg) (regexOk : RegexOk) (limit : Nat)
+    (c : Ref) (hc : validRef d c = true) {e : Ast} (he : StrE2 d ⟨c, 1, 1⟩ F e)
+    (st : BState) (o : BOut) (hb : build regexOk limit true false e {} st = .ok o) :
+    ∃ s, evalP (F := F) d cfg o.q c = .ok (.str s) ∧
+      evaluate (F := F) d cfg o.q c = .ok (.str s) ∧
+      Spec.eval (F := F) d e ⟨c, 1, 1⟩ = .ok (.val (.str s) none) ∧
+      Spec.evalTop (F := F) d e c = .ok (.str s) :=
+  C09_nested2 wf cfg hns hinj regexOk limit c hc he st o hb
+
+/-- `C09_nested_with_paths` without the `HashInj` hypothesis (it is a theorem: `hashInj_holds`; the
+side condition left is "no element has two attributes with the same prefix, name and value") -/
+theorem C09_nested_with_paths_unconditional {d : Doc} (wf : WF d) (cfg : ECfg)
+    (hns : cfg.nsIface = true) (hattr : AttrTriplesDistinct d) (regexOk : RegexOk) (limit : Nat)
+    (c : Ref) (hc : validRef d c = true) {e : Ast} (he : StrE2 d ⟨c, 1, 1⟩ F e)
+    (st : BState) (o : BOut) (hb : build regexOk limit true false e {} st = .ok o) :
+    ∃ s, evalP (F := F) d cfg o.q c = .ok (.str s) ∧
+      evaluate (F := F) d cfg o.q c = .ok (.str s) ∧
+      Spec.eval (F := F) d e ⟨c, 1, 1⟩ = .ok (.val (.str s) none) ∧
+      Spec.evalTop (F := F) d e c = .ok (.str s) :=
+  C09_nested_with_paths wf cfg hns (PathSem.hashInj_holds wf hattr cfg) regexOk limit c hc he st o hb
+
+/-- … inside a predicate or any other context: at every context position `i` and size `n`, any
+builder flags -/
+theorem C09_nested_with_paths_at {d : Doc} (wf : WF d) (cfg : ECfg) (hns : cfg.nsIface = true)
+    (hinj : HashInj d cfg) (regexOk : RegexOk) (limit : Nat)
+    (c : Ref) (hc : validRef d c = true) (i n : Nat) {e : Ast} (he : StrE2 d ⟨c, i, n⟩ F e)
+    (fl : Flags) (st : BState) (o : BOut) (hb : build regexOk limit true false e fl st = .ok o) :
+    ∃ s, evalP (F := F) d cfg o.q c = .ok (.str s) ∧
+      Spec.eval (F := F) d e ⟨c, i, n⟩ = .ok (.val (.str s) none) :=
+  strE2_sem wf cfg hns hinj regexOk limit c hc i n he fl st o hb
+
+/-- **old fragment → new**: every member of `StrE` is a member of `StrE2`, for every document and
+context -/
+theorem C09_strE_embeds (d : Doc) (ctx : Spec.Ctx) {e : Ast} (h : StrE e) : StrE2 d ctx F e :=
+  strE2_of_strE d ctx h
 
 end XPathV.Theorems.C09
